@@ -30,11 +30,18 @@ pub struct SplineJob {
     /// sampling density per interval (4 or 8)
     pub den: u32,
     pub f32_too: bool,
+    /// the implementation sees the axis (and the queries) multiplied by this power of two and
+    /// the boundary derivative values converted accordingly; the reference stays unscaled
+    pub xscale: f64,
 }
 
 impl SplineJob {
     pub fn key(&self) -> String {
-        format!("{}:{}", self.axis.name, self.spec.name())
+        if self.xscale == 1.0 {
+            format!("{}:{}", self.axis.name, self.spec.name())
+        } else {
+            format!("{}*2^{}:{}", self.axis.name, self.xscale.log2(), self.spec.name())
+        }
     }
 }
 
@@ -65,6 +72,11 @@ pub fn bc_configs(nl: usize, n: usize) -> Vec<BcSpec> {
     let pairs = alpha::end_pairs();
     let het: Vec<_> = (0..nl.max(1)).map(|j| pairs[(j * 7 + 3) % 25]).collect();
     v.push(BcSpec::Lanes(het));
+    // the same kinds on every lane but a different derivative value per lane
+    let l = nl.max(1);
+    v.push(BcSpec::Lanes((0..l).map(|j| (End::First(0.25 * (j % 7) as f64 - 0.75), End::First(0.5 - 0.125 * (j % 5) as f64))).collect()));
+    v.push(BcSpec::Lanes((0..l).map(|j| (End::Second((j % 4) as f64 - 2.0), End::Second(0.5 * (j % 3) as f64 + 0.5))).collect()));
+    v.push(BcSpec::Lanes((0..l).map(|j| (End::First(1.0 - 0.5 * (j % 4) as f64), End::Second(0.25 * (j % 6) as f64 - 0.5))).collect()));
     let _ = n;
     v
 }
@@ -130,9 +142,22 @@ pub fn run_spline_job(job: &SplineJob, want: Want, out: &mut JobOut) {
 pub fn run_spline_job_t<T: Fl>(job: &SplineJob, want: Want, out: &mut JobOut) {
     let axis = &job.axis;
     let n = axis.n();
-    let Some(xt) = vec_exact::<T>(&axis.x) else {
+    let xs_scaled: Vec<f64> = axis.x.iter().map(|v| v * job.xscale).collect();
+    let Some(xt) = vec_exact::<T>(&xs_scaled) else {
         return;
     };
+    let Some(spec_impl) = crate::subj::spec_in_axis_units(&job.spec, job.xscale) else {
+        return;
+    };
+    if [&spec_impl].iter().any(|s| match s {
+        BcSpec::Lanes(v) => v.iter().any(|(l, r)| [l, r].iter().any(|e| match e {
+            End::First(w) | End::Second(w) => T::from_f64_exact(*w).is_none(),
+            _ => false,
+        })),
+        _ => false,
+    }) {
+        return;
+    }
     let periodic = job.spec.is_periodic();
     let lanes: Vec<Lane> = lanes_for(axis, periodic)
         .into_iter()
@@ -148,7 +173,7 @@ pub fn run_spline_job_t<T: Fl>(job: &SplineJob, want: Want, out: &mut JobOut) {
     let k = k_for(axis);
     let eps = T::EPS;
 
-    let interp = match catch(|| build_spline::<T, _>(&xt, data.clone(), &job.spec, false)) {
+    let interp = match catch(|| build_spline::<T, _>(&xt, data.clone(), &spec_impl, false)) {
         Ok(Ok(i)) => i,
         Ok(Err(e)) => {
             out.violate(
@@ -171,7 +196,8 @@ pub fn run_spline_job_t<T: Fl>(job: &SplineJob, want: Want, out: &mut JobOut) {
 
     // queries: den samples per interval + last knot, computed exactly in f64 then converted
     let q64 = alpha::grid_queries(&axis.x, job.den);
-    let Some(qt) = vec_exact::<T>(&q64) else {
+    let q_scaled: Vec<f64> = q64.iter().map(|v| v * job.xscale).collect();
+    let Some(qt) = vec_exact::<T>(&q_scaled) else {
         return;
     };
     let qarr = Array1::from(qt.clone());
@@ -199,7 +225,7 @@ pub fn run_spline_job_t<T: Fl>(job: &SplineJob, want: Want, out: &mut JobOut) {
     // the same spline: the structural / exact oracles below then hold for them as well
     for (layout, d2) in crate::subj::layouts2(&data).into_iter().skip(1) {
         crate::subj::set_axis_reversed_in_memory(layout == "rev");
-        let r2 = catch(|| build_spline::<T, _>(&xt, d2, &job.spec, false).map(|ip| ip.interp_array(&qarr)));
+        let r2 = catch(|| build_spline::<T, _>(&xt, d2, &spec_impl, false).map(|ip| ip.interp_array(&qarr)));
         crate::subj::set_axis_reversed_in_memory(false);
         out.transitions += 1;
         let same = match &r2 {
@@ -500,6 +526,7 @@ pub fn case_json<T: Fl>(job: &SplineJob, lane: Option<&Lane>, cond: Option<Cond>
         ("type", Json::str(T::NAME)),
         ("axis_name", Json::str(&job.axis.name)),
         ("axis", Json::f64s(&job.axis.x)),
+        ("axis_scale_seen_by_the_implementation", Json::Num(job.xscale)),
         ("boundary_config", Json::str(&job.spec.name())),
         ("samples_per_interval", Json::Int(job.den as i128)),
     ];
